@@ -75,18 +75,35 @@ def statesOf (fs : FS) : List Op → List FS
 def exportOps (fs : FS) (p : Path) (chunks : List Nat) (crash : Crash) : FS × Bool :=
   (runOps fs (program p chunks crash).1, (program p chunks crash).2)
 
-/-- for the driver: per run of a history (`none` = skipped as already generated) the operation program
-of the export and, for the directory after each of its operations, whether the run's output file is
-still exactly as before the run.  The history itself is stepped with `exportOps`. -/
-def opsTrace : FS → List Run → List (Option (List Op × List Bool))
+/-- the operation has an effect on path `t` only (Boolean form of `Op.only`) -/
+def Op.onlyB (t : Path) : Op → Bool
+  | .openW t' => t' == t
+  | .append t' _ => t' == t
+  | .remove t' => t' == t
+  | .replace _ _ => false
+
+/-- summary of one export for the driver: number of operations, the last one, "every operation before the
+last has an effect on the temporary sibling only" (⇒ the output file is untouched in every intermediate
+state: `Proofs/GenFileOps.lean: midOnly_sound`), "the output file is as before after the last operation" -/
+structure OpsInfo where
+  n : Nat
+  last : Option Op
+  midOnly : Bool
+  lastSame : Bool
+
+/-- for the driver: per run of a history (`none` = skipped as already generated) the summary of the
+operation program of the export.  The history is stepped with `exportNew` (= `exportOps`, `C31_ops_summary`). -/
+def opsTrace : FS → List Run → List (Option OpsInfo)
   | _, [] => []
   | fs, r :: rs =>
-    let s := genFile exportOps fs (.out r.path) r.overwrite r.chunks r.crash
-    let info : Option (List Op × List Bool) :=
+    let s := genFile exportNew fs (.out r.path) r.overwrite r.chunks r.crash
+    let info : Option OpsInfo :=
       if s.2 = .skipped then none
       else
         let ops := (program (.out r.path) r.chunks r.crash).1
-        some (ops, (statesOf fs ops).map fun st => decide (st (.out r.path) = fs (.out r.path)))
+        some { n := ops.length, last := ops.getLast?,
+               midOnly := ops.dropLast.all (Op.onlyB (.tmp r.path)),
+               lastSame := decide (s.1 (.out r.path) = fs (.out r.path)) }
     info :: opsTrace s.1 rs
 
 end GenFile
